@@ -8,12 +8,10 @@ ones), then the documented default, and `${VAR}` references in any string-valued
 main config are replaced by the variable's value (left unchanged when it is unset).  The values
 validation checks are the values Refinery then uses.
 
-The model (`Refinery.Model.Settings`) mirrors the code as it is.  Two parts of the statement are
-false of it, and their negations are proved here with witnesses that the check reproduces on the
-real loader:
+The model (`Refinery.Model.Settings`) mirrors the code as it is.  One part of the statement is
+false of it, and its negation is proved here with witnesses that the check reproduces on the real
+loader (list-valued options, which used to keep element 0 only, are repaired: `list_option_full`):
 
-* a list-valued option (`RedisClusterHosts`) keeps only element 0 of what go-flags collected —
-  `list_option_full_refuted`, with `list_option_partial_*` for what does hold;
 * validation pass 1 looks at the files alone, so it refuses a file value that a flag or variable
   overrides, and pass 2 checks a placeholder instead of an empty API key —
   `validated_full_refuted`, `checked_final_full_refuted`, with `accepted_value_was_validated`,
@@ -381,35 +379,6 @@ def ListOptionFull : Prop :=
     d.kind = .strs → o.delim = some c → documentedList c o ≠ [] →
     resolve d ⟨o :: rest, files⟩ = .ok (.list (documentedList c o))
 
-/-- **refuted** — `REFINERY_REDIS_CLUSTER_HOSTS=a,b` yields `[a]`: go-flags has already split the
-variable, `applyCmdEnvTags` then takes element 0 and splits *that*. -/
-theorem list_option_full_refuted : ¬ ListOptionFull := by
-  intro h
-  have := h { kind := .strs, dflt := .list [] } ','
-    { delim := some ',', flag := none, env := some ['a', ',', 'b'] } [] [] rfl rfl (by decide)
-  have h2 : resolve { kind := .strs, dflt := .list [] }
-      ⟨[{ delim := some ',', flag := none, env := some ['a', ',', 'b'] }], []⟩ = .ok (.list [['a']]) := by
-    decide
-  rw [h2] at this
-  have h3 : documentedList ',' { delim := some ',', flag := none, env := some ['a', ',', 'b'] } = [['a'], ['b']] := by
-    decide
-  rw [h3] at this
-  exact absurd this (by decide)
-
-/-- the same on the command line: `--redis-cluster-hosts a --redis-cluster-hosts b` yields `[a]` -/
-theorem list_option_flag_twice_refuted :
-    resolve { kind := .strs, dflt := .list [] }
-      ⟨[{ delim := some ',', flag := some [['a'], ['b']], env := none }], []⟩ = .ok (.list [['a']]) := by
-  decide
-
-/-- **partial (flag)** — a list option given exactly once on the command line works as documented:
-the occurrence is split at the delimiter. -/
-theorem list_option_partial_flag (d : Desc) (c : Char) (e : Str) (env : Option Str)
-    (rest : List OptSrc) (files : List (Option Val)) (hk : d.kind = .strs) :
-    resolve d ⟨{ delim := some c, flag := some [e], env := env } :: rest, files⟩ =
-      .ok (.list (documentedList c { delim := some c, flag := some [e], env := env })) := by
-  simp [resolve, applyOpts, hk, cmdField, rawValues, isZero, documentedList]
-
 theorem splitChar_no_delim (c : Char) (s : Str) (h : c ∉ s) : splitChar c s = [s] := by
   induction s with
   | nil => rfl
@@ -418,12 +387,84 @@ theorem splitChar_no_delim (c : Char) (s : Str) (h : c ∉ s) : splitChar c s = 
     have hxs : c ∉ xs := fun e => h (by simp [e])
     simp [splitChar, hx, ih hxs]
 
-/-- **partial (variable)** — … and so does a variable that holds a single address. -/
-theorem list_option_partial_env (d : Desc) (c : Char) (e : Str) (rest : List OptSrc)
-    (files : List (Option Val)) (hk : d.kind = .strs) (hc : c ∉ e) :
-    resolve d ⟨{ delim := some c, flag := none, env := some e } :: rest, files⟩ =
-      .ok (.list (documentedList c { delim := some c, flag := none, env := some e })) := by
-  simp [resolve, applyOpts, hk, cmdField, rawValues, isZero, documentedList, splitChar_no_delim c e hc]
+theorem splitChar_ne_nil (c : Char) (s : Str) : splitChar c s ≠ [] := by
+  cases s with
+  | nil => simp [splitChar]
+  | cons x xs =>
+    simp only [splitChar]
+    split
+    · simp
+    · split <;> simp
+
+/-- the pieces of a split do not contain the delimiter -/
+theorem splitChar_pieces (c : Char) (s : Str) : ∀ p ∈ splitChar c s, c ∉ p := by
+  induction s with
+  | nil => intro p hp; simp [splitChar] at hp; simp [hp]
+  | cons x xs ih =>
+    intro p hp
+    simp only [splitChar] at hp
+    split at hp
+    · rcases List.mem_cons.mp hp with h | h
+      · simp [h]
+      · exact ih p h
+    · next hx =>
+      split at hp
+      · next hnil => exact absurd hnil (splitChar_ne_nil c xs)
+      · next h t hs =>
+        rcases List.mem_cons.mp hp with e | e
+        · subst e
+          have : c ∉ h := ih h (by rw [hs]; simp)
+          intro hm
+          rcases List.mem_cons.mp hm with e1 | e1
+          · exact hx e1.symm
+          · exact this e1
+        · exact ih p (by rw [hs]; simp [e])
+
+theorem flatMap_split_of_pieces (c : Char) (l : List Str) (h : ∀ p ∈ l, c ∉ p) :
+    l.flatMap (splitChar c) = l := by
+  induction l with
+  | nil => rfl
+  | cons p l ih =>
+    simp only [List.flatMap_cons]
+    rw [splitChar_no_delim c p (h p (by simp)), ih (fun q hq => h q (by simp [hq]))]
+    rfl
+
+/-- **list_option_full** — a list-valued option (`RedisClusterHosts`) takes every address it is
+given: all occurrences of the flag, each split at the delimiter, or else every delimiter-separated
+part of the environment variable.  (Before the repair of `applyCmdEnvTags` only element 0 was
+kept; the witnesses `REFINERY_REDIS_CLUSTER_HOSTS=a,b` and a repeated flag are regression cases in
+`corpus/C29/list_option_keeps_first.ops`.) -/
+theorem list_option_full : ListOptionFull := by
+  intro d c o rest files hk hd hne
+  obtain ⟨dl, fl, ev⟩ := o
+  simp only at hd
+  subst hd
+  cases fl with
+  | some vs =>
+    have hvs : vs.isEmpty = false := by
+      cases vs with
+      | nil => simp [documentedList] at hne
+      | cons _ _ => rfl
+    simp [resolve, applyOpts, hk, cmdField, rawValues, isZero, documentedList, hvs]
+  | none =>
+    cases ev with
+    | none => simp [documentedList] at hne
+    | some e =>
+      have hne' : (splitChar c e).isEmpty = false := by
+        cases h : splitChar c e with
+        | nil => exact absurd h (splitChar_ne_nil c e)
+        | cons _ _ => rfl
+      simp [resolve, applyOpts, hk, cmdField, rawValues, isZero, documentedList, hne',
+        flatMap_split_of_pieces c _ (splitChar_pieces c e)]
+
+/-- the two former witnesses, now as documented -/
+example : resolve { kind := .strs, dflt := .list [] }
+    ⟨[{ delim := some ',', flag := none, env := some ['a', ',', 'b'] }], []⟩ = .ok (.list [['a'], ['b']]) := by
+  decide
+example : resolve { kind := .strs, dflt := .list [] }
+    ⟨[{ delim := some ',', flag := some [['a'], ['b', ',', 'c']], env := some ['e'] }], [some (.list [['f']])]⟩ =
+      .ok (.list [['a'], ['b'], ['c']]) := by
+  decide
 
 /-! ## Validated = used -/
 
